@@ -134,7 +134,8 @@ class Outcome:
         # group violations by clause signature so one defect does not print thousands of lines
         seen = {}
         for v in self.violations:
-            key = json.dumps([v.get("clauses"), v.get("invariant"), v.get("attribution")], sort_keys=True)
+            tags = [a for a in (v.get("attribution") or []) if isinstance(a, str) and a.startswith("Dev_")]
+            key = json.dumps([v.get("clauses"), v.get("invariant"), tags], sort_keys=True)
             seen.setdefault(key, []).append(v)
         for key, vs in seen.items():
             vs.sort(key=lambda v: len(json.dumps(v.get("record", {}))))
@@ -147,7 +148,7 @@ class Outcome:
             path.write_text(blob)
             what = v.get("clauses") or v.get("invariant")
             print(f"VIOLATION property={self.prop} replay={path}  clauses={what} count={len(vs)} "
-                  f"example={json.dumps(_shorten(v.get('record', {}).get('call', v.get('model'))), ensure_ascii=True)[:300]}")
+                  f"example={json.dumps(_shorten(_example_of(v)), ensure_ascii=True)[:300]}")
             exit_code = 1
         cov = {
             "states": self.states, "transitions": self.transitions,
@@ -173,6 +174,16 @@ class Outcome:
               f"impl_records={self.traces} known_findings={len(self.known_hits)} violations={len(seen)} "
               f"wall={ev['wall_s']}s")
         return exit_code
+
+
+def _example_of(v):
+    rec = v.get("record", {})
+    if "call" in rec:
+        return rec["call"]
+    if "model" in v:
+        return v["model"]
+    return {k: rec.get(k) for k in ("kind", "mode", "phase", "tid", "step", "seq", "id") if k in rec} | \
+        {"contradicting_keys": [str(a)[:160] for a in (v.get("attribution") or [])[:2]]}
 
 
 def _shorten(obj, limit=400):
